@@ -186,6 +186,24 @@ def run(chk):
                bad[0]["where"] if bad else "", "%d obligations of C05-R2/R4; first failing: %s" % (len(rel), bad[0]["instance"] if bad else "-"), construct=cls + "/branch-agreement")
     chk.floor("C13-R3", 2)
     # ---- R4 parametricity ---------------------------------------------------------------------------------------------
+    # premise: the matrices whose storage order depends on DIM (column-major for DIM == 1, row-major otherwise) are only
+    # touched through Eigen's index-based interface.  Raw storage access makes the meaning of the code depend on the
+    # layout, so nothing established on the DIM >= 2 instantiations transfers to DIM == 1: that is not decidable here.
+    raw = []
+    for f in F.functions:
+        c = f.get("cls", "")
+        if not any(c.startswith("SplineTrajectory::" + s_) for s_ in ("PPolyND",) + SPLINES):
+            continue
+        for n in walk(f.get("body")):
+            if n.get("k") == "call" and n.get("callee", {}).get("name") == "data" and (n.get("obj") or {}).get("t", {}).get("c") == "eigen":
+                raw.append((f, n, "data() on an Eigen object"))
+            elif n.get("k") in ("ctor", "decl") and ((n.get("t") or n.get("ty") or {}).get("tmpl") == "Map" or "Eigen::Map<" in str((n.get("t") or n.get("ty") or {}).get("n", ""))):
+                raw.append((f, n, "Eigen::Map over raw storage"))
+    if raw:
+        f, n, why = raw[0]
+        raise Broken("C13-R4 premise does not hold: %s in %s at %s (%s); coordinate independence for the column-major DIM == 1 layout cannot be transferred from the analysed instantiations" % (
+            why, f["full"][:100], loc(f, n), pp(n)[:80]))
+    chk.note("R4 premise: no raw storage access (data(), Eigen::Map) in the spline / trajectory classes")
     check_parametricity(chk, F)
     if chk.tier == "thorough":
         F2 = facts_for(chk, "wit_thorough.cpp")
